@@ -44,6 +44,10 @@
 #include <errno.h>
 #include <tbox/util/buffer.h>
 #include <tbox/util/split_cmdline.h>
+#include <tbox/util/string.h>
+#include <sys/uio.h>
+#include <sys/ioctl.h>
+#include <sys/un.h>
 
 // the scanner's step_, and the services' Impl classes, are private: open them for the harness
 #define private public
@@ -52,6 +56,8 @@
 #include <tbox/network/stdio_stream.h>
 #include <tbox/network/tcp_server.h>
 #include <tbox/network/tcp_connection.h>
+#include <tbox/network/tcp_acceptor.h>
+#include <tbox/terminal/session.h>
 #include <tbox/terminal/impl/key_event_scanner.h>
 #include <tbox/terminal/terminal.h>
 #include <tbox/terminal/session.h>
@@ -91,6 +97,156 @@ extern "C" ssize_t write(int fd, const void *p, size_t n) {
     return real_write()(fd, p, k < n ? k : n);
 }
 
+// ------------------------------------------------------------------ the kernel's answers on the SERVICE's end of a client's socket
+// g_fdslot maps a descriptor accepted for slot 4..6 to its slot; every system call the code makes on such a descriptor is
+// recorded as a token of that slot's `M sys` line. The answers to readv()/read() come from the op (`xsock`): sizes of the
+// successful calls, then EAGAIN / end of file / ECONNRESET / EINTR / EIO; with nothing scripted the real kernel answers.
+struct RAns { char kind; size_t n; };              // 'c' a successful call of at most n bytes, 't' errno n (0 = end of file)
+static int g_fdslot[4096];
+static std::deque<RAns> g_rq[3];
+static std::vector<std::string> g_sys[3];
+static size_t g_rdbytes[3] = {0, 0, 0};
+static bool g_sys_on = true;
+static int g_listen_fd[2] = {-1, -1}, g_accept_slot = -1, g_accept_err = 0;
+static int slot_of_fd(int fd) { return (fd >= 0 && fd < 4096) ? g_fdslot[fd] : -1; }
+static void sys_tok(int slot, const std::string &t) { if (g_sys_on && slot >= 4 && slot < 7) g_sys[slot - 4].push_back(t); }
+static const char *errno_name(int e) {
+    switch (e) { case EAGAIN: return "EAGAIN"; case ECONNRESET: return "ECONNRESET"; case EINTR: return "EINTR"; case EIO: return "EIO";
+                 case EMFILE: return "EMFILE"; case ECONNABORTED: return "ECONNABORTED"; case EPIPE: return "EPIPE"; default: return "E?"; }
+}
+typedef ssize_t (*readv_t)(int, const struct iovec *, int);
+typedef int (*close_t)(int);
+static readv_t real_readv() { static readv_t f = (readv_t)dlsym(RTLD_NEXT, "readv"); return f; }
+static close_t real_close() { static close_t f = (close_t)dlsym(RTLD_NEXT, "close"); return f; }
+static ssize_t scripted_readv(const char *name, int slot, int fd, const struct iovec *iov, int cnt) {
+    std::deque<RAns> &q = g_rq[slot - 4];
+    std::string nm(name);
+    if (!q.empty()) {
+        RAns a = q.front(); q.pop_front();
+        if (a.kind == 't') {
+            q.clear();
+            if (a.n == 0) { sys_tok(slot, nm + "=EOF"); return 0; }
+            sys_tok(slot, nm + "=" + errno_name((int)a.n)); errno = (int)a.n; return -1;
+        }
+        struct iovec v[4]; int m = 0; size_t left = a.n;
+        for (int i = 0; i < cnt && i < 4 && left > 0; ++i) {
+            size_t len = iov[i].iov_len < left ? iov[i].iov_len : left;
+            if (len == 0) continue;
+            v[m].iov_base = iov[i].iov_base; v[m].iov_len = len; ++m; left -= len;
+        }
+        ssize_t r = real_readv()(fd, v, m);
+        int e = errno;
+        if (r > 0) { g_rdbytes[slot - 4] += (size_t)r; sys_tok(slot, nm + "=" + std::to_string(r)); }
+        else { q.clear(); sys_tok(slot, nm + "=" + (r == 0 ? "EOF" : errno_name(e))); }
+        errno = e;
+        return r;
+    }
+    ssize_t r = real_readv()(fd, iov, cnt);
+    int e = errno;
+    if (r > 0) {
+        g_rdbytes[slot - 4] += (size_t)r;
+        std::vector<std::string> &t = g_sys[slot - 4];
+        std::string pre = nm + "=+";
+        if (g_sys_on && !t.empty() && t.back().compare(0, pre.size(), pre) == 0)
+            t.back() = pre + std::to_string(std::stoull(t.back().substr(pre.size())) + (size_t)r);
+        else sys_tok(slot, pre + std::to_string(r));
+    } else sys_tok(slot, nm + "=" + (r == 0 ? "EOF" : errno_name(e)));
+    errno = e;
+    return r;
+}
+extern "C" ssize_t readv(int fd, const struct iovec *iov, int cnt) {
+    int slot = slot_of_fd(fd);
+    if (slot < 4) return real_readv()(fd, iov, cnt);
+    return scripted_readv("readv", slot, fd, iov, cnt);
+}
+typedef ssize_t (*read_t)(int, void *, size_t);
+extern "C" ssize_t read(int fd, void *p, size_t n) {
+    static read_t real = (read_t)dlsym(RTLD_NEXT, "read");
+    int slot = slot_of_fd(fd);
+    if (slot < 4) return real(fd, p, n);
+    struct iovec v; v.iov_base = p; v.iov_len = n;
+    return scripted_readv("read", slot, fd, &v, 1);
+}
+extern "C" int close(int fd) {
+    int slot = slot_of_fd(fd);
+    if (slot >= 4) { sys_tok(slot, "close"); g_fdslot[fd] = -1; }
+    return real_close()(fd);
+}
+extern "C" int shutdown(int fd, int how) {
+    typedef int (*fn_t)(int, int);
+    static fn_t real = (fn_t)dlsym(RTLD_NEXT, "shutdown");
+    int slot = slot_of_fd(fd);
+    if (slot >= 4) sys_tok(slot, "shutdown:" + std::to_string(how));
+    return real(fd, how);
+}
+extern "C" int setsockopt(int fd, int level, int name, const void *val, socklen_t len) {
+    typedef int (*fn_t)(int, int, int, const void *, socklen_t);
+    static fn_t real = (fn_t)dlsym(RTLD_NEXT, "setsockopt");
+    int slot = slot_of_fd(fd);
+    if (slot >= 4) sys_tok(slot, "setsockopt:" + std::to_string(level) + ":" + std::to_string(name));
+    return real(fd, level, name, val, len);
+}
+static int accept_common(int fd, struct sockaddr *a, socklen_t *l, int flags, bool four) {
+    typedef int (*fn_t)(int, struct sockaddr *, socklen_t *);
+    typedef int (*fn4_t)(int, struct sockaddr *, socklen_t *, int);
+    static fn_t real = (fn_t)dlsym(RTLD_NEXT, "accept");
+    static fn4_t real4 = (fn4_t)dlsym(RTLD_NEXT, "accept4");
+    bool ours = fd >= 0 && (fd == g_listen_fd[0] || fd == g_listen_fd[1]) && g_accept_slot >= 4;
+    int r = four ? real4(fd, a, l, flags) : real(fd, a, l);
+    if (!ours) return r;
+    if (g_accept_err) {          // the kernel refuses: the pending connection is gone (nothing is left in the backlog)
+        if (r >= 0) real_close()(r);
+        sys_tok(g_accept_slot, std::string("accept=") + errno_name(g_accept_err));
+        errno = g_accept_err; return -1;
+    }
+    if (r >= 0 && r < 4096) { g_fdslot[r] = g_accept_slot; sys_tok(g_accept_slot, "accept=ok"); }
+    return r;
+}
+extern "C" int accept(int fd, struct sockaddr *a, socklen_t *l) { return accept_common(fd, a, l, 0, false); }
+extern "C" int accept4(int fd, struct sockaddr *a, socklen_t *l, int flags) { return accept_common(fd, a, l, flags, true); }
+static void sys_reset() { for (int i = 0; i < 4096; ++i) g_fdslot[i] = -1; for (int k = 0; k < 3; ++k) { g_rq[k].clear(); g_sys[k].clear(); g_rdbytes[k] = 0; } }
+
+// ------------------------------------------------------------------ the client's screen: an independent VT100-style emulator
+// (a grid of rows with a right margin `w`, immediate autowrap, BS / CR / LF, ESC [ C, ESC [ D, other CSI sequences skipped),
+// fed with every byte a client receives; its current row and cursor are printed as `P scr` and compared with the Lean
+// terminal ScrW run on the bytes the model sends.
+struct Vt {
+    size_t w = 80;
+    std::deque<std::string> rows;
+    size_t r = 0, c = 0, base = 0;       // rows[r - base] is the cursor's row
+    int esc = 0;
+    Vt() { rows.push_back(""); }
+    std::string &cur() { return rows[r - base]; }
+    void down() { ++r; if (r - base == rows.size()) rows.push_back(""); while (rows.size() > 4) { rows.pop_front(); ++base; } }
+    void put(unsigned char b) {
+        if (esc == 1) { esc = (b == '[') ? 2 : 0; return; }
+        if (esc == 2) {
+            if (b == 'C') { esc = 0; if (c + 1 < w) ++c; }
+            else if (b == 'D') { esc = 0; if (c > 0) --c; }
+            else if (b >= 0x40 && b <= 0x7e) esc = 0;
+            return;
+        }
+        switch (b) {
+            case 8: if (c > 0) --c; return;
+            case 27: esc = 1; return;
+            case 13: c = 0; return;
+            case 10: down(); return;
+            default: break;
+        }
+        std::string &row = cur();
+        if (row.size() < c) row.append(c - row.size(), ' ');
+        if (c < row.size()) row[c] = (char)b; else row.push_back((char)b);
+        if (c + 1 >= w) { down(); c = 0; } else ++c;
+    }
+    std::string line(int k) {
+        std::string row = cur();
+        while (!row.empty() && row.back() == ' ') row.pop_back();
+        return "P scr " + std::to_string(k) + " " + std::to_string(r) + " " + std::to_string(c) + " " + vh::hex(row);
+    }
+};
+static Vt g_vt[8];
+static std::string g_optx[8];
+
 // ------------------------------------------------------------------ event recording, per slot
 static const int kSlots = 8, kNoSlot = 8;          // index 8: lines of the op itself / world B
 static std::vector<std::string> g_ev[kSlots + 1];
@@ -108,11 +264,27 @@ static void flush_tx(int k) {
 static void flush_other_direct(int k) { if (k < 4) for (int j = 0; j < 4; ++j) if (j != k) flush_tx(j); }
 static void ev(int k, const std::string &s) { flush_other_direct(k); flush_tx(k); g_ev[grp(k)].push_back(s); }
 static void ev(const std::string &s) { ev(kNoSlot, s); }
-static void tx(int k, const void *p, size_t n) { flush_other_direct(k); g_tx[k].append((const char *)p, n); }
-static void clear_events() { for (int k = 0; k <= kSlots; ++k) { g_ev[k].clear(); g_tx[k].clear(); } }
+static void tx(int k, const void *p, size_t n) { flush_other_direct(k); g_tx[k].append((const char *)p, n); if (k < kSlots) g_optx[k].append((const char *)p, n); }
+static void clear_events() {
+    for (int k = 0; k <= kSlots; ++k) { g_ev[k].clear(); g_tx[k].clear(); }
+    for (int k = 0; k < kSlots; ++k) g_optx[k].clear();
+    for (int k = 0; k < 3; ++k) { g_sys[k].clear(); g_rdbytes[k] = 0; g_rq[k].clear(); }
+}
 static void emit() {
     for (int k = 0; k <= kSlots; ++k) flush_tx(k);
-    for (int k = 0; k <= kSlots; ++k) for (auto &l : g_ev[k]) outln(l);
+    for (int g = 0; g <= kSlots; ++g) {
+        for (auto &l : g_ev[g]) outln(l);
+        for (int k = 0; k < kSlots; ++k) {
+            if (grp(k) != g || g_optx[k].empty()) continue;
+            for (unsigned char b : g_optx[k]) g_vt[k].put(b);
+            outln(g_vt[k].line(k));
+        }
+        if (g >= 4 && g < 7 && !g_sys[g - 4].empty()) {
+            std::string l = "M sys " + std::to_string(g);
+            for (auto &t : g_sys[g - 4]) l += " " + t;
+            outln(l);
+        }
+    }
     clear_events();
 }
 
@@ -141,6 +313,7 @@ struct Client {                 // a telnet / raw-TCP client (slots 4..6): the c
     int fd = -1;
     int sfd = -1;               // the server's end (for the write() answers)
     bool gone = false;          // the client closed its end; the service has not noticed yet
+    bool ended_by_read = false; // a scripted read answer (end of file / error) ended the connection at the service
     int state = 0;              // 0 never connected, 1 connected, 2 gone
     std::vector<uint8_t> pending;
 };
@@ -159,7 +332,15 @@ struct WorldA {
     Stdio::Impl *stdio = nullptr;
     int stdio_state = 0;               // 0 not started, 1 running, 3 stopped
     int in_w = -1, out_r = -1;         // our ends of the pipes behind fd 0 / fd 1
+    // the services listen on Unix sockets nobody connects to (the real initialize() + start(): callbacks, state); the
+    // clients connect to two acceptors of the harness - real TcpAcceptor objects whose read event is delivered by a direct
+    // call, so that a connection is accepted inside its op - which hand the accepted TcpConnection to the service's
+    // TcpServer exactly as the server's own acceptor does
+    network::TcpAcceptor *acc[2] = {nullptr, nullptr};
+    std::string sock_path[2];
+    network::TcpConnection *last_conn = nullptr;
     WorldA() {
+        sys_reset();
         loop = event::Loop::New();
         term = new Terminal(loop);
         term->setWelcomeText("Welcome\r\n");
@@ -167,14 +348,75 @@ struct WorldA {
         for (int i = 0; i < 4; ++i) conn[i].slot = i;
         tel = new Telnetd::Impl(loop, term);
         rpc = new TcpRpc::Impl(loop, term);
-        // what Impl::initialize() does, without binding a listening socket (connections are socketpairs
-        // handed to the real TcpServer as the acceptor would)
+        std::string base = "/tmp/C13-sock-" + std::to_string((long)getpid());
+        if (!tel->initialize(base + "-t0") || !tel->start() || !rpc->initialize(base + "-r0") || !rpc->start()) { fprintf(stderr, "harness: service start failed\n"); _exit(7); }
+        // (the connected callbacks are wrapped to learn the connection token; everything else is what initialize() installed)
         tel->sp_tcp_->setConnectedCallback([this](const network::TcpServer::ConnToken &ct) { last_ct = ct; tel->onTcpConnected(ct); });
-        tel->sp_tcp_->setDisconnectedCallback([this](const network::TcpServer::ConnToken &ct) { tel->onTcpDisconnected(ct); });
         rpc->sp_tcp_->setConnectedCallback([this](const network::TcpServer::ConnToken &ct) { last_ct = ct; rpc->onTcpConnected(ct); });
-        rpc->sp_tcp_->setDisconnectedCallback([this](const network::TcpServer::ConnToken &ct) { rpc->onTcpDisconnected(ct); });
+        // (the receive callbacks are wrapped to note what the front end left unconsumed, right after the delivery)
+        tel->sp_tcp_->setReceiveCallback([this](const network::TcpServer::ConnToken &ct, util::Buffer &b) { tel->onTcpReceived(ct, b); note_rest(ct, b.readableSize(), 0); }, 1);
+        rpc->sp_tcp_->setReceiveCallback([this](const network::TcpServer::ConnToken &ct, util::Buffer &b) { rpc->onTcpReceived(ct, b); note_rest(ct, b.readableSize(), 2); }, 1);
+        for (int j = 0; j < 2; ++j) {
+            sock_path[j] = base + (j == 0 ? "-t" : "-r");
+            acc[j] = new network::TcpAcceptor(loop);
+            if (!acc[j]->initialize(network::SockAddr::FromString(sock_path[j]), 8)) { fprintf(stderr, "harness: acceptor failed\n"); _exit(7); }
+            g_listen_fd[j] = acc[j]->sock_fd_.get();
+            network::TcpServer *srv = (j == 0) ? tel->sp_tcp_ : rpc->sp_tcp_;
+            acc[j]->setNewConnectionCallback([this, srv](network::TcpConnection *c) { last_conn = c; srv->onTcpConnected(c); });
+        }
     }
     network::TcpServer::ConnToken last_ct;
+    bool got_rest[3] = {false, false, false};
+    size_t last_rest[3] = {0, 0, 0};
+    void note_rest(const network::TcpServer::ConnToken &ct, size_t n, int first) {
+        for (int k = first; k < (first == 0 ? 2 : 3); ++k) if (cli[k].state == 1 && cli[k].ct == ct && g_rdbytes[k] > 0) { got_rest[k] = true; last_rest[k] = n; }   // (the repeated hand-over of an unconsumed rest at end of file is no delivery)
+    }
+    int client_connect(size_t slot) {
+        int cfd = socket(AF_UNIX, SOCK_STREAM, 0);
+        if (cfd < 0) return -1;
+        struct sockaddr_un sa; memset(&sa, 0, sizeof sa); sa.sun_family = AF_UNIX;
+        const std::string &pth = sock_path[slot < 6 ? 0 : 1];
+        strncpy(sa.sun_path, pth.c_str(), sizeof(sa.sun_path) - 1);
+        if (connect(cfd, (struct sockaddr *)&sa, sizeof sa) != 0) { ::close(cfd); return -1; }
+        fcntl(cfd, F_SETFL, fcntl(cfd, F_GETFL) | O_NONBLOCK);
+        return cfd;
+    }
+    // the unconsumed bytes of a connection live in its BufferedFd's receive buffer (where the real read path keeps them)
+    void take_pending(Client &c) {
+        c.pending.clear();
+        if (!c.conn || !c.conn->sp_buffered_fd_) return;
+        util::Buffer &b = c.conn->sp_buffered_fd_->recv_buff_;
+        c.pending.assign(b.readableBegin(), b.readableBegin() + b.readableSize());
+        b.hasReadAll();
+    }
+    void put_pending(Client &c) {
+        if (!c.conn || !c.conn->sp_buffered_fd_ || c.pending.empty()) return;
+        c.conn->sp_buffered_fd_->recv_buff_.append(c.pending.data(), c.pending.size());
+    }
+    size_t rest_of(Client &c) { return (c.conn && c.conn->sp_buffered_fd_) ? c.conn->sp_buffered_fd_->recv_buff_.readableSize() : 0; }
+    // which slot a command handler's session belongs to
+    int slot_of(const Session &s) {
+        for (int i = 0; i < 4; ++i) if (s.wp_conn_ == &conn[i]) return i;
+        if (s.wp_conn_ == (Connection *)rpc) return 6;
+        if (stdio && s.wp_conn_ == (Connection *)stdio) return 7;
+        if (s.wp_conn_ == (Connection *)tel) {
+            auto it = tel->session_to_client_.find(s.st_);
+            if (it != tel->session_to_client_.end()) for (int k = 0; k < 2; ++k) if (cli[k].state == 1 && cli[k].ct == it->second) return 4 + k;
+        }
+        return g_op_slot_fallback;
+    }
+    int g_op_slot_fallback = kNoSlot;
+    // after a loop pass / a read event: connections the service has ended by itself (end of file, read error)
+    void reap_closed() {
+        for (int k = 0; k < 3; ++k) {
+            Client &c = cli[k];
+            if (c.state == 1 && !c.gone && !server_of(4 + k)->isClientValid(c.ct) && c.ended_by_read) {
+                if (c.fd >= 0) { ::close(c.fd); c.fd = -1; }
+                c.state = 2; c.conn = nullptr; c.pending.clear(); c.ended_by_read = false;
+                if (c.sfd >= 0) g_wmode[c.sfd] = 0;
+            }
+        }
+    }
     network::TcpServer *server_of(size_t slot) { return slot < 6 ? tel->sp_tcp_ : rpc->sp_tcp_; }
     // what the real Telnetd / TcpRpc -> TcpServer -> TcpConnection wrote to the clients' sockets, and who was disconnected
     // what the loop's write event would do for data BufferedFd had to queue (short counts, EAGAIN): one call
@@ -218,9 +460,29 @@ struct WorldA {
         }
     }
     bool any_gone() const { for (auto &c : cli) if (c.gone) return true; return false; }
+    // bytes a client wrote that its service has not read yet
+    bool any_queued() const {
+        for (auto &c : cli) { int nb = 0; if (c.state == 1 && c.sfd >= 0 && ioctl(c.sfd, FIONREAD, &nb) == 0 && nb > 0) return true; }
+        return false;
+    }
     void close_clients() { for (auto &c : cli) { if (c.fd >= 0) { ::close(c.fd); c.fd = -1; } if (c.sfd >= 0) g_wmode[c.sfd] = 0; c.gone = false; } }
     int front_end_pending = 0;         // endSession tasks of Telnetd/TcpRpc queued by command handlers
     void pass() { loop->runNext([] {}, "verif-pass"); loop->runLoop(event::Loop::Mode::kOnce); front_end_pending = 0; reap_gone(); }
+    // a loop pass as an op: the read events of the sockets with queued bytes are real (epoll); what they delivered is reported
+    void pass_op() {
+        for (int k = 0; k < 3; ++k) { got_rest[k] = false; g_rdbytes[k] = 0; }
+        // while the pass runs the kernel takes every write in full (short counts / EAGAIN are scheduled between passes only: what a
+        // command delivered by this pass's read event leaves queued in BufferedFd would be lost when a task of the same pass
+        // disconnects the client - the transport's business, not the shell's)
+        int saved[3];
+        for (int k = 0; k < 3; ++k) { saved[k] = 0; int f = cli[k].sfd; if (cli[k].state == 1 && f >= 0 && f < 4096 && (g_wmode[f] == 1 || g_wmode[f] == 2)) { saved[k] = g_wmode[f]; g_wmode[f] = 0; } }
+        loop->runNext([] {}, "verif-pass"); loop->runLoop(event::Loop::Mode::kOnce); front_end_pending = 0;
+        for (int k = 0; k < 3; ++k) { int f = cli[k].sfd; if (saved[k] && cli[k].state == 1 && f >= 0 && f < 4096 && server_of(4 + k)->isClientValid(cli[k].ct)) g_wmode[f] = saved[k]; }
+        bool got[3]; for (int k = 0; k < 3; ++k) got[k] = got_rest[k];
+        drain_stdout();
+        for (int k = 0; k < 3; ++k) if (got[k]) ev("M rest=" + std::to_string(last_rest[k]));
+        reap_gone();
+    }
     void drain_stdout() {
         drain_clients();
         if (out_r < 0) return;
@@ -229,6 +491,9 @@ struct WorldA {
     }
     // the host destroys the services and the terminal (the loop stays)
     void destroy_services() {
+        g_sys_on = false;                // (the model says nothing about the descriptors of a destroyed service)
+        for (int i = 0; i < 4096; ++i) g_fdslot[i] = -1;
+        for (int j = 0; j < 2; ++j) { g_listen_fd[j] = -1; delete acc[j]; acc[j] = nullptr; }
         bool had_stdio = stdio != nullptr;
         delete stdio; stdio = nullptr;
         if (in_w >= 0) { ::close(in_w); ::close(out_r); in_w = out_r = -1; }
@@ -241,6 +506,7 @@ struct WorldA {
         if (drain) { pass(); drain_stdout(); clear_events(); }
         destroy_services();
         delete loop; loop = nullptr;        // runs / drops whatever is still queued
+        g_sys_on = true;
     }
     // one loop pass in which, after the tasks queued so far, the host destroys the services and the terminal;
     // what those tasks queued (the front ends' disconnect tasks) is still in the loop when they die
@@ -248,6 +514,7 @@ struct WorldA {
         loop->runNext([this] { drain_stdout(); destroy_services(); }, "verif-teardown-in-pass");
         loop->runLoop(event::Loop::Mode::kOnce);
         delete loop; loop = nullptr;
+        g_sys_on = true;
     }
     // the order a host program should keep (drain, then destroy), silently
     ~WorldA() { if (loop) destroy(true); }
@@ -255,7 +522,7 @@ struct WorldA {
 
 static WorldA *g_A = nullptr;
 static int g_depth = 0, g_max_depth = 2;       // nesting of command handlers that act on their own session
-struct Act { char kind; std::string data; };   // 's' send text, 'f' feed bytes to the own session, 'e' end the session
+struct Act { char kind; std::string data; };   // 's' send text, 'f' feed bytes to the own session, 'e' end the session, 'd' delete it
 // keep fd 0 and fd 1 occupied (by /dev/null) whenever the stdio service does not own them, so that pipe()
 // never hands them out
 static void park_std_fds() {
@@ -409,12 +676,34 @@ static bool parse_script(const std::vector<std::string> &w, std::vector<Act> &ou
         const std::string &t = w[k];
         std::vector<uint8_t> d;
         if (t == "e") { out.push_back(Act{'e', ""}); continue; }
+        if (t == "d") { out.push_back(Act{'d', ""}); continue; }
         if (t.size() < 3 || t[1] != ':' || (t[0] != 's' && t[0] != 'f') || !vh::unhex(t.substr(2), d)) return false;
         out.push_back(Act{t[0], std::string(d.begin(), d.end())});
     }
     return true;
 }
 static std::string ret(bool r) { return std::string("P ret=") + (r ? "1" : "0"); }
+// `-` | n,n,...[,a|z|r|i|o]
+static bool parse_answers(const std::string &t, std::deque<RAns> &out) {
+    if (t == "-") return true;
+    size_t pos = 0, cnt = 0;
+    while (pos <= t.size()) {
+        size_t e = t.find(',', pos); if (e == std::string::npos) e = t.size();
+        std::string it = t.substr(pos, e - pos);
+        bool last = e == t.size();
+        if (it.empty()) return false;
+        if (last && it.size() == 1 && std::string("azrio").find(it[0]) != std::string::npos) {
+            int en = it[0] == 'a' ? EAGAIN : it[0] == 'z' ? 0 : it[0] == 'r' ? ECONNRESET : it[0] == 'i' ? EINTR : EIO;
+            out.push_back(RAns{'t', (size_t)en});
+        } else {
+            uint64_t v; if (!vh::to_u64(it, v) || v < 1 || v > 1024 || ++cnt > 8) return false;
+            out.push_back(RAns{'c', (size_t)v});
+        }
+        pos = e + 1;
+        if (last) break;
+    }
+    return true;
+}
 
 int main(int argc, char **argv) {
     signal(SIGPIPE, SIG_IGN);
@@ -433,6 +722,7 @@ int main(int argc, char **argv) {
         if (w[0] == "case") {
             A.reset(); B.reset();
             g_depth = 0; g_max_depth = 2;
+            for (auto &v : g_vt) v = Vt();
             A.reset(new WorldA());
             outln(line);
             continue;
@@ -440,8 +730,9 @@ int main(int argc, char **argv) {
         if (!A) A.reset(new WorldA());
         const std::string &op = w[0];
         bool ok = true;
-        std::vector<uint8_t> d; uint64_t n = 0, m = 0; size_t i = 0, j = 0;
+        std::vector<uint8_t> d, d2; uint64_t n = 0, m = 0; size_t i = 0, j = 0;
         std::vector<Act> script;
+        std::deque<RAns> rq;
         int c = A->cur;
         g_A = A.get();
         g_op_slot = c;
@@ -458,15 +749,17 @@ int main(int argc, char **argv) {
         } else if (op == "recv" && w.size() == 2 && vh::unhex(w[1], d) && A->opened[c]) {
             ev(ret(A->term->onRecvString(A->conn[c].tok, std::string(d.begin(), d.end()))));
         } else if (op == "pass" && w.size() == 1) {
-            A->pass(); A->drain_stdout();
+            A->pass_op();
             ev("P pass");
         } else if (op == "teardown" && w.size() == 1) {
             A->destroy(false);
+            for (int k = 0; k < 3; ++k) g_sys[k].clear();
             A.reset(new WorldA());
             g_A = A.get();
             ev("P teardown");
-        } else if (op == "passdown" && w.size() == 1) {
+        } else if (op == "passdown" && w.size() == 1 && !A->any_queued()) {
             A->pass_and_destroy();
+            for (int k = 0; k < 3; ++k) g_sys[k].clear();
             A.reset(new WorldA());
             g_A = A.get();
             ev("P passdown");
@@ -479,20 +772,47 @@ int main(int argc, char **argv) {
             ev(ret(A->term->deleteSession(A->conn[c].tok)));
         } else if (op == "xconn" && w.size() == 2 && idx(w[1], 7, i) && i >= 4 && A->cli[i - 4].state != 1) {
             Client &cl = A->cli[i - 4];
-            int sv[2];
-            if (socketpair(AF_UNIX, SOCK_STREAM, 0, sv) != 0) return 6;
-            fcntl(sv[1], F_SETFL, fcntl(sv[1], F_GETFL) | O_NONBLOCK);
-            cl.fd = sv[1]; cl.sfd = sv[0]; cl.gone = false; cl.pending.clear(); cl.state = 1;
-            if (sv[0] < 4096) g_wmode[sv[0]] = 0;
-            // as TcpAcceptor does for an accepted socket
-            auto *conn = new network::TcpConnection(A->loop, network::SocketFd(sv[0]), network::SockAddr());
-            A->server_of(i)->onTcpConnected(conn);
-            cl.ct = A->last_ct; cl.conn = conn;
+            int cfd = A->client_connect(i);
+            if (cfd < 0) return 6;
+            A->last_conn = nullptr;
+            g_accept_slot = (int)i; g_accept_err = 0;
+            A->acc[i < 6 ? 0 : 1]->onSocketRead(event::FdEvent::kReadEvent);      // what the loop does when the listening socket is readable
+            g_accept_slot = -1;
+            if (!A->last_conn) return 6;
+            cl.fd = cfd; cl.conn = A->last_conn; cl.ct = A->last_ct; cl.gone = false; cl.ended_by_read = false; cl.pending.clear(); cl.state = 1;
+            cl.sfd = cl.conn->sp_buffered_fd_->fd_.get();
+            if (cl.sfd >= 0 && cl.sfd < 4096) g_wmode[cl.sfd] = 0;
             ev("P conn");
+        } else if (op == "xconnf" && w.size() == 3 && idx(w[1], 7, i) && i >= 4 && A->cli[i - 4].state != 1 && vh::to_u64(w[2], n) && n >= 1 && n <= 4) {
+            static const int errs[5] = {0, EAGAIN, EMFILE, ECONNABORTED, EINTR};
+            int cfd = A->client_connect(i);
+            if (cfd < 0) return 6;
+            A->last_conn = nullptr;
+            g_accept_slot = (int)i; g_accept_err = errs[n];
+            A->acc[i < 6 ? 0 : 1]->onSocketRead(event::FdEvent::kReadEvent);
+            g_accept_slot = -1; g_accept_err = 0;
+            ::close(cfd);
+            if (A->last_conn) return 6;
+            ev("P conn-fail");
         } else if (op == "xrecv" && w.size() == 3 && idx(w[1], 7, i) && i >= 4 && A->cli[i - 4].state == 1 && vh::unhex(w[2], d)) {
             Client &cl = A->cli[i - 4];
+            A->take_pending(cl);
             if (i < 6) feed(*A->tel, cl.ct, cl.pending, d); else feed(*A->rpc, cl.ct, cl.pending, d);
             ev("M rest=" + std::to_string(cl.pending.size()));
+            if (A->server_of(i)->isClientValid(cl.ct)) A->put_pending(cl);
+            cl.pending.clear();
+        } else if (op == "xsock" && w.size() == 4 && idx(w[1], 7, i) && i >= 4 && A->cli[i - 4].state == 1 && !A->cli[i - 4].gone &&
+                   (A->stdio_state == 0 || A->stdio_state == 3) && vh::unhex(w[2], d) && d.size() <= 60000 && parse_answers(w[3], rq)) {
+            Client &cl = A->cli[i - 4];
+            // the client writes; then ONE read event of the service's socket, the kernel answering as scripted
+            size_t off = 0;
+            while (off < d.size()) { ssize_t r = ::write(cl.fd, d.data() + off, d.size() - off); if (r <= 0) return 8; off += (size_t)r; }
+            g_rq[i - 4] = rq; g_rdbytes[i - 4] = 0; A->got_rest[i - 4] = false;
+            if (cl.conn && cl.conn->sp_buffered_fd_) cl.conn->sp_buffered_fd_->onReadCallback(event::FdEvent::kReadEvent);
+            g_rq[i - 4].clear();
+            if (A->got_rest[i - 4]) ev("M rest=" + std::to_string(A->last_rest[i - 4]));
+            if (!A->server_of(i)->isClientValid(cl.ct)) { cl.ended_by_read = true; A->drain_clients(); A->reap_closed(); }
+            ev("P xsock");
         } else if (op == "xdisc" && w.size() == 2 && idx(w[1], 7, i) && i >= 4 && A->cli[i - 4].state == 1) {
             Client &cl = A->cli[i - 4];
             A->drain_clients();
@@ -517,7 +837,7 @@ int main(int argc, char **argv) {
             A->drain_clients();          // (what was sent so far is reported, nothing is left unread)
             if (cl.state != 1) ok = false;
             else { ::close(cl.fd); cl.fd = -1; cl.gone = true; ev("P xclose"); }
-        } else if (op == "sstart" && w.size() == 1 && A->stdio_state == 0 && !A->any_gone()) {
+        } else if (op == "sstart" && w.size() == 1 && A->stdio_state == 0 && !A->any_gone() && !A->any_queued()) {
             int pi[2], po[2];
             if (pipe(pi) != 0 || pipe(po) != 0) return 4;
             dup2(pi[0], 0); ::close(pi[0]); dup2(po[1], 1); ::close(po[1]);
@@ -548,20 +868,28 @@ int main(int argc, char **argv) {
             size_t id = A->nodes.size();
             A->nodes.push_back(A->term->createFuncNode(
                 [id, script](const Session &s, const Args &a) {
+                    if (g_A) g_A->g_op_slot_fallback = g_op_slot;
                     std::string l = "P probe " + std::to_string(id) + " " + std::to_string(a.size());
                     for (auto &x : a) l += " " + vh::hex(x);
-                    if (g_op_slot >= 4 && g_A) g_A->drain_stdout();   // what the service wrote so far comes first
-                    ev(g_op_slot, l);
+                    int slot = g_A ? g_A->slot_of(s) : g_op_slot;
+                    if (slot >= 4 && g_A) g_A->drain_stdout();   // what the service wrote so far comes first
+                    ev(slot, l);
                     // the handler acts on its own session, synchronously, while the command is executing
                     if (g_depth < g_max_depth && g_A) {
                         ++g_depth;
                         for (auto &act : script) {
                             if (act.kind == 's') s.send(act.data);
                             else if (act.kind == 'f') g_A->term->onRecvString(s.st_, act.data);
-                            else {
+                            else if (act.kind == 'd') {
+                                // the session this command runs in is deleted, synchronously: the stdio shell's service is
+                                // stopped (Stdio::stop() deletes its session); elsewhere by the handler itself, which holds
+                                // the Terminal (a host-written Connection knows its tokens)
+                                if (slot == 7 && g_A->stdio && g_A->stdio_state == 1) { g_A->stdio->stop(); g_A->stdio_state = 3; }
+                                else g_A->term->deleteSession(s.st_);
+                            } else {
                                 g_A->drain_stdout();
                                 s.endSession();
-                                if (g_op_slot >= 4 && g_op_slot < 7) ++g_A->front_end_pending;
+                                if (slot >= 4 && slot < 7) ++g_A->front_end_pending;
                             }
                         }
                         --g_depth;
@@ -582,6 +910,29 @@ int main(int argc, char **argv) {
                 for (auto &x : args) l += " " + vh::hex(x);
                 ev(l);
             } else ev("P split fail");
+        } else if (op == "ssplit" && w.size() == 3 && vh::unhex(w[1], d) && !d.empty() && vh::unhex(w[2], d2)) {
+            std::vector<std::string> chips;
+            size_t cnt = util::string::Split(std::string(d2.begin(), d2.end()), std::string(d.begin(), d.end()), chips);
+            std::string l = "P split ok " + std::to_string(cnt);
+            for (auto &x : chips) l += " " + vh::hex(x);
+            ev(l);
+        } else if (op == "hexstr" && w.size() == 5 && vh::unhex(w[1], d) && vh::to_u64(w[2], n) && vh::to_u64(w[3], m) && m <= 1 && vh::unhex(w[4], d2) &&
+                   n % 65536 <= d.size()) {
+            // the data at every alignment 0..7, in a heap block that ends exactly where the data ends (a read past it is a
+            // heap-buffer-overflow for ASan), the length passed as a size_t (narrowed to the function's uint16_t parameter)
+            std::string delim(d2.begin(), d2.end()), first; bool same = true;
+            for (size_t off = 0; off < 8; ++off) {
+                char *blk = (char *)malloc(off + d.size() + (d.empty() && off == 0 ? 1 : 0));
+                if (!d.empty()) memcpy(blk + off, d.data(), d.size());
+                size_t len = (size_t)n;
+                std::string r = util::string::RawDataToHexStr(blk + off, len, m == 1, delim);
+                free(blk);
+                if (off == 0) first = r; else if (r != first) same = false;
+            }
+            ev(same ? "P split ok 1 " + vh::hex(first) : std::string("P hexstr-depends-on-alignment"));
+        } else if (op == "scrw" && w.size() == 2 && vh::to_u64(w[1], n) && n >= 4 && n <= 1000) {
+            for (auto &v : g_vt) v.w = (size_t)n;
+            ev("P scrw");
         } else if (op.size() > 1 && (op[0] == 't' || op[0] == 'r') &&
                    (op.substr(1) == "conn" || op.substr(1) == "recv" || op.substr(1) == "disc" || op.substr(1) == "end" || op.substr(1) == "send")) {
             if (!B) B.reset(new WorldB());
@@ -590,6 +941,17 @@ int main(int argc, char **argv) {
         if (!ok) { clear_events(); outln("bad-op"); continue; }
         if (A && A->loop) A->drain_stdout();
         emit();
+        // the editor state of the session the input was for (internal: M)
+        int edk = (op == "recv") ? c : (op == "xrecv" || op == "xsock") ? (int)i : (op == "srecv") ? 7 : -1;
+        if (edk >= 0 && A && A->term) {
+            SessionToken tok; bool have = false;
+            if (edk < 4) { tok = A->conn[edk].tok; have = A->opened[edk]; }
+            else if (edk < 6) { auto it = A->tel->client_to_session_.find(A->cli[edk - 4].ct); if (A->cli[edk - 4].state == 1 && it != A->tel->client_to_session_.end()) { tok = it->second; have = true; } }
+            else if (edk == 6) { auto it = A->rpc->client_to_session_.find(A->cli[2].ct); if (A->cli[2].state == 1 && it != A->rpc->client_to_session_.end()) { tok = it->second; have = true; } }
+            else if (A->stdio && A->stdio_state == 1) { tok = A->stdio->session_token_; have = !tok.isNull(); }
+            SessionContext *sc = have ? A->term->impl_->sessions_.at(tok) : nullptr;
+            if (sc) outln("M ed " + std::to_string(edk) + " " + std::to_string(sc->cursor) + " " + std::to_string(sc->history_index) + " " + vh::hex(sc->curr_input));
+        }
     }
     free(lbuf);
     return 0;
